@@ -62,6 +62,8 @@ type Prog struct {
 	// (withLock(..., claim.commit)) -> the value it is bound to at that site
 	boundRecv   map[*ssa.Parameter]ssa.Value
 	boundMethod map[*ssa.Function]*ssa.Function // synthetic $bound wrapper -> method
+	// implOf: thin forwarding wrapper (func hasCycle(g, a, b) bool { return g.hasCycle(a, b) }) -> the function it forwards to
+	implOf map[*ssa.Function]*ssa.Function
 }
 
 type callSite struct {
@@ -173,6 +175,19 @@ func loadProgramRaw(repo string, cfg BuildConfig) (*Prog, error) {
 			}
 		}
 	}
+	// thin forwarding wrappers
+	p.implOf = map[*ssa.Function]*ssa.Function{}
+	for _, f := range p.Fns {
+		if impl := thinWrapperTarget(p, f); impl != nil {
+			p.implOf[f] = impl
+		}
+	}
+	for w, impl := range p.implOf {
+		// calls through the wrapper count as calls of the implementation
+		for _, cs := range p.callers[w] {
+			p.callers[impl] = append(p.callers[impl], cs)
+		}
+	}
 	// bound method values
 	p.boundRecv, p.boundMethod = map[*ssa.Parameter]ssa.Value{}, map[*ssa.Function]*ssa.Function{}
 	sitesOf := map[*ssa.Function][]*ssa.MakeClosure{}
@@ -251,7 +266,19 @@ func (p *Prog) Name(f *ssa.Function) string {
 func (p *Prog) Fn(name string) *ssa.Function { return p.byName[name] }
 
 // ErgoFn looks up a package-level function of internal/ergo by identifier.
-func (p *Prog) ErgoFn(ident string) *ssa.Function { return p.byName["ergo."+ident] }
+func (p *Prog) ErgoFn(ident string) *ssa.Function {
+	f := p.byName["ergo."+ident]
+	if f != nil {
+		if impl := p.implOf[f]; impl != nil {
+			// the name is a thin forwarding wrapper: the role is played by what it forwards to (keys keep the role name)
+			if _, named := p.roleOf[impl]; !named {
+				p.roleOf[impl] = ident
+			}
+			return impl
+		}
+	}
+	return f
+}
 
 // Pos renders a position relative to the repository root.
 func (p *Prog) Pos(pos token.Pos) string {
@@ -313,4 +340,66 @@ func calleeFullName(c *ssa.CallCommon) string {
 		return "builtin " + b.Name()
 	}
 	return "dynamic"
+}
+
+// thinWrapperTarget: f's whole body is `return g(params...)` with exactly its own parameters as arguments (in any
+// order, each once): f is another name for g.
+func thinWrapperTarget(p *Prog, f *ssa.Function) *ssa.Function {
+	if f.Parent() != nil || len(f.Blocks) != 1 || len(f.Params) == 0 {
+		return nil
+	}
+	var call *ssa.Call
+	for _, in := range f.Blocks[0].Instrs {
+		switch x := in.(type) {
+		case *ssa.Call:
+			if call != nil {
+				return nil
+			}
+			call = x
+		case *ssa.Return, *ssa.DebugRef, *ssa.Extract:
+		default:
+			return nil
+		}
+	}
+	if call == nil {
+		return nil
+	}
+	g := call.Call.StaticCallee()
+	if g == nil || g == f || !p.InModule(g) || g.Blocks == nil || len(call.Call.Args) != len(f.Params) {
+		return nil
+	}
+	used := map[*ssa.Parameter]bool{}
+	for _, a := range call.Call.Args {
+		prm, ok := a.(*ssa.Parameter)
+		if !ok || prm.Parent() != f || used[prm] {
+			return nil
+		}
+		used[prm] = true
+	}
+	// results handed back unchanged
+	ret, ok := f.Blocks[0].Instrs[len(f.Blocks[0].Instrs)-1].(*ssa.Return)
+	if !ok {
+		return nil
+	}
+	for i, r := range ret.Results {
+		if r == ssa.Value(call) {
+			continue
+		}
+		if ex, ok := r.(*ssa.Extract); ok && ex.Tuple == ssa.Value(call) && ex.Index == i {
+			continue
+		}
+		return nil
+	}
+	return g
+}
+
+// calleeOf is StaticCallee with thin forwarding wrappers resolved to their implementation.
+func calleeOf(cc *ssa.CallCommon) *ssa.Function {
+	f := cc.StaticCallee()
+	if f != nil && curProg != nil {
+		if impl := curProg.implOf[f]; impl != nil {
+			return impl
+		}
+	}
+	return f
 }
